@@ -119,6 +119,8 @@ int vs_inside(void);
 // Fail the n-th (0-based) parent-side call of function `fn` from now on:
 // realloc with ENOMEM; poll, waitpid, read and write with EINTR. (-1, -1) disarms.
 void vs_fail_nth(int fn, int n);
+// ... with a chosen errno (waitpid + ECHILD: the child is collected by the shim first, as by a foreign reaper).
+void vs_fail_nth_err(int fn, int n, int err);
 unsigned vs_nth_fired(void);
 // Shrink every pipe the library creates from now on to `bytes` (0: leave the default).
 void vs_pipe_capacity(int bytes);  // how many such failures have been delivered so far
